@@ -553,7 +553,7 @@ impl Simulation for C18Sim {
     if name == "thorough" {
       TierCfg { name: "thorough".into(), max_runs: 36_000, secs: 900 }
     } else {
-      TierCfg { name: "quick".into(), max_runs: 320, secs: 150 }
+      TierCfg { name: "quick".into(), max_runs: 480, secs: 150 }
     }
   }
   fn run(&self, seed: u64, _tier: &str, known: &KnownFindings) -> RunReport {
